@@ -125,11 +125,11 @@ def replay_code(conc):
 
 
 class ExportOb(StmtOb):
-    def __init__(self, key, st, budget, seed):
-        super().__init__(key, st, "ansi")
+    def __init__(self, key, st, budget, seed, quotes=None):
+        super().__init__(key, st, "ansi", quotes=quotes)
         cand = [x for x in self.slots if x not in reentrant_slots(st)]
         self.free = choose_free(cand, self.free_kinds, budget, ("a", "d", "c"), "c18/%s/%s" % (seed, key))
-        self.key = "stmt/" + key
+        self.key = "stmt/" + key + ("/quoted" if quotes else "")
 
     def names(self, prefix="n"):
         return make_names(self.slots, self.free_kinds, 2, prefix=prefix, free_slots=self.free)
